@@ -325,11 +325,12 @@ class Engine(object):
         """H1: observed value (or Failure) against the model value (or Failure)."""
         flags = flags or {}
         if isinstance(model, Failure) and isinstance(observed, Failure):
-            same = model.exc_class == observed.exc_class
+            # both fail: there is no value the property could speak about.  The exception classes may differ
+            # for innocent reasons (e.g. strong_form() of a not yet assembled operator fails in the range map
+            # before the weak form is touched, the two-step fresh script fails in the weak form first).
             self.event(what, label, "both_raise", model.exc_class, observed.exc_class)
-            if not same:
-                self.violate("history_raises_differently", what=what, op=label, history_exc=observed.exc_class,
-                             model_exc=model.exc_class, msg=observed.msg, flags=flags)
+            if model.exc_class != observed.exc_class:
+                self.out.probe("both_raise_with_different_exception_classes")
             return
         if isinstance(observed, Failure):
             self.event(what, label, "history_raises", observed.exc_class)
